@@ -161,7 +161,7 @@ def eval_cfg(expr, features):
     if expr in ('test', 'docsrs', 'kani'): return False
     return True
 
-_GENERIC_NAME = re.compile(r'^(?:[A-Z]\w?\d*|Self|impl .*|dyn .*|<.*)$')
+_GENERIC_NAME = re.compile(r'^(?:[A-Z]\w?\d*|[A-Z][A-Z0-9]*|Self|impl .*|dyn .*|<.*)$')
 def is_generic_name(tb):
     return tb is None or bool(_GENERIC_NAME.match(tb)) and tb not in ('Vec', 'Box', 'Rc', 'Arc', 'Cow', 'Expr')
 
